@@ -100,6 +100,8 @@ type zzStore struct {
 	prop      phase0.Slot
 	writes    int
 	failAt    int // the failAt-th write (1-based) fails / "crashes"; 0 = none
+
+	yieldOnRead bool // schedule-exploring runs: every record read is a scheduling point
 }
 
 func (s *zzStore) write() error {
@@ -128,6 +130,14 @@ func (s *zzStore) SaveHighestAttestation(pk []byte, a *phase0.AttestationData) e
 	return nil
 }
 func (s *zzStore) RetrieveHighestAttestation(pk []byte) (*phase0.AttestationData, bool, error) {
+	found, src, tgt := s.attFound, s.attS, s.attT
+	if s.yieldOnRead {
+		zzYield() // storage I/O: a scheduling point of the schedule-exploring mode (the value read may go stale)
+		if !found {
+			return nil, false, nil
+		}
+		return &phase0.AttestationData{Source: &phase0.Checkpoint{Epoch: src}, Target: &phase0.Checkpoint{Epoch: tgt}}, true, nil
+	}
 	if !s.attFound {
 		return nil, false, nil
 	}
@@ -141,7 +151,11 @@ func (s *zzStore) SaveHighestProposal(pk []byte, slot phase0.Slot) error {
 	return nil
 }
 func (s *zzStore) RetrieveHighestProposal(pk []byte) (phase0.Slot, bool, error) {
-	return s.prop, s.propFound, nil
+	slot, found := s.prop, s.propFound
+	if s.yieldOnRead {
+		zzYield()
+	}
+	return slot, found, nil
 }
 func (s *zzStore) RemoveHighestAttestation(pk []byte) error {
 	if err := s.write(); err != nil {
@@ -342,3 +356,88 @@ func ZZHarnessSlashingLemma() {
 
 func zzFarFutureEpoch(network core.Network, epoch phase0.Epoch) bool { return true }
 func zzFarFutureSlot(network core.Network, slot phase0.Slot) bool    { return true }
+
+// ZZHarnessConcurrentSign (C04, schedules): two signing requests for one share run as goroutines under the
+// schedule-exploring mode (real mutex state for the wallet lock and the signer's per-account locks; every
+// Lock/Unlock and every record read is a scheduling point; <= SCHED_PREEMPT preemptions), from an arbitrary
+// record state satisfying Inv. KIND 0: two attestations with symbolic (source, target); KIND 1: two blocks with
+// symbolic slots. Whatever the schedule, the signatures released are pairwise non-slashable and non-slashable
+// against everything signed before, and Inv holds afterwards.
+func ZZHarnessConcurrentSign() {
+	st, w, km, g, clock := zzState()
+	zzAssume(w.acc != nil && st.attFound && st.propFound)
+	st.yieldOnRead = true
+	pk := make([]byte, 48)
+	blocks := zzParam("KIND") == 1
+	var s [2]phase0.Epoch
+	var t [2]phase0.Epoch
+	var b [2]phase0.Slot
+	for i := 0; i < 2; i++ {
+		if blocks {
+			b[i] = phase0.Slot(zzNondetRange("block_slot", 0, zzE))
+			zzAssume(b[i] <= clock)
+		} else {
+			s[i] = phase0.Epoch(zzNondetRange("att_source", 0, zzE))
+			t[i] = phase0.Epoch(zzNondetRange("att_target", 0, zzE))
+			zzAssume(s[i] < t[i] && t[i] <= phase0.Epoch(clock/32))
+		}
+	}
+	var ok [2]bool
+	done := make(chan int, 1)
+	finished := 0
+	for i := 0; i < 2; i++ {
+		go func(i int) {
+			var err error
+			if blocks {
+				_, _, err = km.SignBeaconObject(&capella.BeaconBlock{Slot: b[i]}, phase0.Domain{}, pk, spectypes.DomainProposer)
+			} else {
+				att := &phase0.AttestationData{Slot: clock, Source: &phase0.Checkpoint{Epoch: s[i]}, Target: &phase0.Checkpoint{Epoch: t[i]}}
+				_, _, err = km.SignBeaconObject(att, phase0.Domain{}, pk, spectypes.DomainAttester)
+			}
+			ok[i] = err == nil
+			finished++
+			if finished == 2 {
+				done <- i
+			}
+		}(i)
+	}
+	<-done
+	for i := 0; i < 2; i++ {
+		if !ok[i] {
+			continue
+		}
+		zzReach("signed")
+		if blocks {
+			zzAssert(b[i] > g.B, "concurrent: no second block for a slot at or below an earlier one")
+		} else {
+			zzAssert(t[i] > g.T && s[i] >= g.S, "concurrent: not slashable against anything signed before")
+		}
+	}
+	if ok[0] && ok[1] {
+		zzReach("both-signed")
+		if blocks {
+			zzAssert(b[0] != b[1], "concurrent: never two blocks for the same slot")
+		} else {
+			zzAssert(t[0] != t[1], "concurrent: never two attestations with the same target")
+			zzAssert(!(s[0] < s[1] && t[1] < t[0]) && !(s[1] < s[0] && t[0] < t[1]), "concurrent: never a surrounding pair")
+		}
+	}
+	for i := 0; i < 2; i++ {
+		if ok[i] {
+			if blocks {
+				if b[i] > g.B {
+					g.B = b[i]
+				}
+			} else {
+				if t[i] > g.T {
+					g.T = t[i]
+				}
+				if s[i] > g.S {
+					g.S = s[i]
+				}
+			}
+		}
+	}
+	zzInv(st, g, "after-concurrent-signing")
+	zzReach("end")
+}
